@@ -65,6 +65,8 @@ def run(ctx):
                 tls_ops.append("tls %s %s %s" % (r["path"], kind, den))
                 tok = "none" if kind == "none" else "%s:2%s" % (kind, ":denied" if den == "1" else "")
                 tls_model_ops.append("rt %s U2F POST none 1 %s none none 1" % (r["path"], tok))
+    # the deny list as an operator writes it: through a config file and the real loader
+    ops += ["cfgdeny 16"] if ctx.quick() else ["cfgdeny 16", "cfgdeny 64", "cfgdeny 200"]
     n_plain = len(ops)
     ops = ops + tls_ops
     impl, log, rc = c.run_harness(ctx, "cmd/keymasterd", "C06", ops, timeout=1500)
@@ -94,6 +96,19 @@ def run(ctx):
     dis_ca = []
     nontrivial = set()
     for o, a, b in zip(ops, impl, model):
+        if o.startswith("cfgdeny"):
+            kv = dict(x.split("=", 1) for x in a.split() if "=" in x)
+            hist["cfgdeny:" + ("refused-all" if kv.get("admitted") == "-" and kv.get("ipadmitted") == "-" else "ADMITTED")] += 1
+            if kv.get("control") != "2/2":
+                ctx.broken.append("config-file deny-list probe %r: unlisted control keys not admitted (%r)" % (o, a))
+            elif kv.get("admitted") != "-" or kv.get("ipadmitted") != "-":
+                c.add_violation(ctx, "denied-key-from-config-file",
+                                "keys written into key_deny_list_ssh_sha256 of the configuration file (as getKeyFingerprint prints them) and loaded by "
+                                "loadVerifyConfigFile are admitted by checkAuth: fingerprints starting with %s (keymaster-signed cert) / %s (IP-restricted cert)" % (
+                                    kv.get("admitted"), kv.get("ipadmitted")), {"op": o, "impl": a, "model": b})
+            elif a != b:
+                ctx.broken.append("config-file deny-list probe %r: impl=%r model=%r" % (o, a, b))
+            continue
         if o.startswith("ca "):
             hist["checkAuth:" + " ".join(a.split()[:2] if a.startswith("fail") else a.split()[:1])] += 1
             if a.startswith("ok"):
